@@ -37,6 +37,7 @@ def run(tier):
                            'issued at random points of the run; every individual state write (SQL level) and every committed state is judged; '
                            'non-trivial = distinct runs with at least one operator command or duplicate',
                            _nontrivial, strict=True,
+                           model_behaviours=lambda d: ec.model_jobs(d, tier, sims=[(None, 2 if tier == 'quick' else 8, 1, 1, ('pause', 'resume', 'stop'))]),
                            model_runs=lambda d: ec.catalogue_model_runs(d, tier, ops=1, dups=1, tag='_o1d1') +
                            ec.catalogue_model_runs(d, tier, ops=3 if tier == 'thorough' else 2, only=('chain2', 'linear_handled', 'cmd_fail_first'), tag='_o3'))
 
